@@ -20,6 +20,11 @@ Line protocol of property C20.
 * `trim <width> <auto 0|1> <hex text>` – `WriteLineNoWrap` alone:
   `ok <hex out> v=<visible runes> e=<ends inside an escape> c=<cells (eaWidth) of the visible runes>`.
 * `vterm <history>` – `VirtualTerm`: `ok n=<LineCount> closed=<0|1> lines=<hex list> g=<Get(-1)>,<Get(n)>,<Get(0)>` or `panic`.
+* `vt <width> <height> <row0> <onlcr 0|1> <hex bytes>` – the reference terminal `Scr` (cell widths `eaWidth`)
+  alone on an arbitrary byte stream: `ok rows=<…> row=<…> col=<…> vis=<…>` – compared with the Go copy of
+  the machine that the harness uses to judge the real writer's bytes (and that `extra/C20.py` compares with tmux).
+* `termf` / `vtermf` – as `term` / `vterm`, the harness calling `WriteForLinef(line, "%s", text)`.
+* `size <rows> <cols>` – `TermRows()` / `TermCols()` after the size has been set: `ok <rows> <cols>`.
 * `bterm <width> <trim> <history>` – `BufferedTerm` (final `Close()` appended): `ok b=<bytes> rows=<…> row=<…>` or `panic`.
 -/
 namespace Rare.Drv.C20
@@ -101,7 +106,19 @@ def termAnswer (width : Int) (H? : Option Nat) (r0 : Nat) (trim clear hide : Boo
     else s!"ok b={Hex.enc bytes} {spec} MODEL-ON-MACHINE-DIFFERS {machine}"
   else s!"ok b={Hex.enc bytes} {machine}"
 
-def handle : List String → String
+def vtAnswer (width H row0 : Nat) (onlcr : Bool) (bytes : Bytes) : String :=
+  let t := ({ Scr.blank width H onlcr eaWidth with row := row0 }).feedBytes bytes
+  s!"ok rows={rowsOut t H} row={t.row} col={t.col} vis={b01 t.cursorVisible}"
+
+def handle0 : List String → String
+  | ["vt", w, hh, r0, nl, bs] =>
+    match w.toNat?, hh.toNat?, r0.toNat?, bit nl, Hex.dec bs with
+    | some width, some H, some row0, some onlcr, some bytes => vtAnswer width H row0 onlcr bytes
+    | _, _, _, _, _ => "bad-args"
+  | ["size", r, c] =>
+    match r.toInt?, c.toInt? with
+    | some rows, some cols => s!"ok {rows} {cols}"
+    | _, _ => "bad-args"
   | ["term", w, tr, hs] =>
     match w.toInt?, bit tr, parseHist hs with
     | some width, some trim, some h => termAnswer width none 0 trim true true h
@@ -153,5 +170,10 @@ def handle : List String → String
         else s!"ok b={Hex.enc bytes} {machine}"
     | _, _, _ => "bad-args"
   | _ => "bad-op"
+
+def handle : List String → String
+  | ["termf", w, tr, hs] => handle0 ["term", w, tr, hs]
+  | ["vtermf", hs] => handle0 ["vterm", hs]
+  | args => handle0 args
 
 end Rare.Drv.C20
